@@ -33,12 +33,32 @@ fn distinct_in_order<C: Eq + Clone>(stream: &[C]) -> Vec<C> {
 }
 
 fn stream_class<C: Eq + Clone>(stream: &[C]) -> &'static str {
+    let k = distinct_in_order(stream).len();
     if stream.is_empty() {
         "empty-stream"
-    } else if distinct_in_order(stream).len() == stream.len() {
+    } else if k >= crate::enc::MANY_K {
+        // streams with many distinct categories are an input class of their own (the E2 search has at
+        // most 4 letters, so its site keys are unchanged)
+        if k == stream.len() {
+            "many-categories-all-distinct"
+        } else {
+            "many-categories-with-repeats"
+        }
+    } else if k == stream.len() {
         "all-distinct"
     } else {
         "with-repeats"
+    }
+}
+
+/// Bijections categories -> 0..k tried with `from_category_map`: every one for k <= 4 (k! maps),
+/// otherwise identity, reversal, stride-coprime and rotation by one.
+fn bijections(k: usize) -> Vec<Vec<usize>> {
+    if k <= 4 {
+        (0..crate::enc::factorial(k)).map(|pi| nth_perm(k, pi)).collect()
+    } else {
+        let s = crate::enc::stride(k);
+        vec![(0..k).collect(), (0..k).rev().collect(), (0..k).map(|i| (i * s) % k).collect(), (0..k).map(|i| (i + 1) % k).collect()]
     }
 }
 
@@ -107,8 +127,14 @@ fn check_clauses<C: Hash + Eq + Clone + Debug>(ctor: &str, class: &str, input: &
     });
     match r {
         Ok(v) => {
+            // one report per broken clause and mapper (the first category that shows it): with many
+            // categories a single defect would otherwise be reported k times per mapper
+            let mut reported: Vec<&'static str> = Vec::new();
             for (clause, what) in v {
-                fail(clause, what);
+                if !reported.contains(&clause) {
+                    reported.push(clause);
+                    fail(clause, what);
+                }
             }
         }
         Err(p) => fail("panic", p.brief()),
@@ -147,10 +173,9 @@ pub fn check_stream<C: Hash + Eq + Clone + Debug>(stream: &[C], alphabet: &[C], 
         Err(p) => out.push(BfsViol { site: format!("mapper.from_positional_category_vec.panic:{}", class), what: format!("categories {:?}: {}", cats, p.brief()) }),
         Ok(mp) => check_clauses("from_positional_category_vec", class, &format!("categories={:?}", cats), &mp, &cats, alphabet, &mut out),
     }
-    // from_category_map: every bijection categories -> 0..k
-    if k <= 4 {
-        for pi in 0..crate::enc::factorial(k) {
-            let perm = nth_perm(k, pi);
+    // from_category_map: every bijection categories -> 0..k (k <= 4), four structured ones beyond
+    {
+        for perm in bijections(k) {
             let mut expected: Vec<Option<C>> = vec![None; k];
             let mut pairs: Vec<(C, usize)> = Vec::new();
             for (i, c) in cats.iter().enumerate() {
@@ -167,6 +192,82 @@ pub fn check_stream<C: Hash + Eq + Clone + Debug>(stream: &[C], alphabet: &[C], 
         }
     }
     out
+}
+
+// ------------------------------------------------------------------------------------------------
+// many categories (extension, round 2): streams with k = 7.. distinct categories as E1 jobs
+
+/// u16 letters for many categories: the `wide_code` table (both ends of the range, scrambled).
+pub fn many_u16(l: u8) -> u16 {
+    crate::enc::wide_code(l as usize)
+}
+
+/// String letters: the empty string, short words, then "c4", "c5", .. (shared prefixes: "c4"/"c40").
+pub fn many_str(l: u8) -> String {
+    match l {
+        0 => "b".to_string(),
+        1 => "a".to_string(),
+        2 => String::new(),
+        3 => "dog".to_string(),
+        _ => format!("c{}", l),
+    }
+}
+
+pub fn many_letters_ok(upto: usize) -> bool {
+    let a: Vec<u16> = (0..upto as u8).map(many_u16).collect();
+    let b: Vec<String> = (0..upto as u8).map(many_str).collect();
+    (0..upto).all(|i| (0..i).all(|j| a[i] != a[j] && b[i] != b[j]))
+}
+
+pub const N_MANY_ORDERS: usize = 3;
+
+/// The stream of letter indices: the id pattern `many_ids(k, pattern)` (ids numbered by first
+/// appearance) with id j standing for letter j (identity) / k-1-j (reversed) / j*stride mod k.
+pub fn many_stream(k: usize, order: usize, pattern: usize) -> Vec<u8> {
+    let s = crate::enc::stride(k);
+    crate::enc::many_ids(k, pattern)
+        .into_iter()
+        .map(|j| match order {
+            0 => j,
+            1 => k - 1 - j,
+            _ => (j * s) % k,
+        } as u8)
+        .collect()
+}
+
+fn nums_digest<C: Hash + Eq + Clone>(stream: &[C], alphabet: &[C]) -> u64 {
+    match mc::guard(|| {
+        let mp = CategoryMapper::fit_to_iter(stream.iter().cloned());
+        let v: Vec<usize> = alphabet.iter().map(|c| mp.get_num(c).copied().unwrap_or(usize::MAX)).collect();
+        mc::hash::mix(mc::hash::h_usizes(&v), mp.num_categories() as u64)
+    }) {
+        Ok(d) => d,
+        Err(_) => 0xdead,
+    }
+}
+
+/// Every mapper check for one many-category stream (alphabet = the k letters plus two that never
+/// occur); returns the violations and a digest of the indices the real mapper assigned.
+pub fn check_many(ty: Ty, k: usize, letters: &[u8]) -> (Vec<BfsViol>, u64) {
+    match ty {
+        Ty::U16 => {
+            let s: Vec<u16> = letters.iter().map(|l| many_u16(*l)).collect();
+            let alpha: Vec<u16> = (0..(k + 2) as u8).map(many_u16).collect();
+            (check_stream(&s, &alpha, true), nums_digest(&s, &alpha))
+        }
+        Ty::Str => {
+            let s: Vec<String> = letters.iter().map(|l| many_str(*l)).collect();
+            let alpha: Vec<String> = (0..(k + 2) as u8).map(many_str).collect();
+            (check_stream(&s, &alpha, true), nums_digest(&s, &alpha))
+        }
+    }
+}
+
+pub fn show_many(ty: Ty, letters: &[u8]) -> Value {
+    match ty {
+        Ty::U16 => json!(letters.iter().map(|l| many_u16(*l)).collect::<Vec<_>>()),
+        Ty::Str => json!(letters.iter().map(|l| many_str(*l)).collect::<Vec<_>>()),
+    }
 }
 
 #[derive(Clone, Copy, PartialEq, Eq, Debug)]
